@@ -18,7 +18,7 @@ from .absint import FALSE, NONE, TOP, TRUE, Undecided, exc, own_names, val
 from .astutil import FUNC_TYPES, attr_chain, dotted
 from .effects import EffectDomain, exc_info_of, is_generator
 
-CALLABLE_TAGS = ("func", "method", "boundmethod", "bound", "partial", "builtin", "listappend", "attrgetter", "itemgetter", "methodcaller", "classref")
+CALLABLE_TAGS = ("func", "method", "boundmethod", "bound", "partial", "builtin", "listappend", "attrgetter", "itemgetter", "methodcaller", "classref", "ctorref")
 
 
 def is_inst(v):
@@ -145,7 +145,7 @@ class ObjectDomain(EffectDomain):
             base = st.get(fr.local(chain[0]))
         else:
             return None
-        if not is_inst(base):
+        if not is_inst(base) and not (base == ("self",) and chain[0] != fr.selfname):
             if fr.instance is None and fr.selfname and chain[0] == fr.selfname:
                 return self._root_attr(interp, chain, st, fr)
             return None
@@ -159,12 +159,35 @@ class ObjectDomain(EffectDomain):
                     got = self._inst_attr(interp, r.value, attr, r.state, fr)
                     nxt.extend(got if got is not None else [val(TOP, r.state)])
                 elif isinstance(r.value, tuple) and r.value[:1] == ("wobj",):
-                    a = self.attrs.get(f"{r.value[1]}.{attr}")
+                    a = r.state.get(f"obj.{r.value[1]}.{attr}") if r.state.has(f"obj.{r.value[1]}.{attr}") else self.attrs.get(f"{r.value[1]}.{attr}")
                     nxt.append(val(a if a is not None else ("bound", r.value[1], attr), r.state))
+                elif r.value == ("self",):
+                    nxt.extend(self._root_value_attr(interp, attr, r.state, fr))
                 else:
                     nxt.append(val(TOP, r.state))
             cur = nxt
         return cur
+
+    def _root_value_attr(self, interp, attr, st, fr):
+        """Attribute of the analysed object reached through a value (an alias of self handed to a helper object)."""
+        key = "self." + attr
+        if st.has(key):
+            return [val(st.get(key), st)]
+        if key in self.attrs:
+            return [val(self.attrs[key], st)]
+        root = getattr(self, "root_class", None)
+        if root is not None:
+            f = self._method(root, attr)
+            if f is not None:
+                if self._decorators(f) & {"property", "cached_property"}:
+                    return interp.inline(f, {}, st, fr, receiver=root)
+                return [val(("method", attr), st)]
+            got = self._class_attr_expr(root, attr)
+            if got is not None:
+                return self._eval_class_expr(interp, got[0], got[1], st, fr)
+        if self.track(key) or key in self.results:
+            return [val(("method", attr), st)]
+        return [val(TOP, st)]
 
     _LITERAL_NODES = (ast.Dict, ast.Tuple, ast.List, ast.Set)
 
@@ -231,6 +254,8 @@ class ObjectDomain(EffectDomain):
                 cur = st.get(key, None)
                 if isinstance(cur, tuple) and cur[:1] == ("tuple",):
                     return ("listappend", key)
+        if all(isinstance(c, str) for c in chain) and ".".join(chain) in self.ctors and not st.has(fr.local(chain[0])):
+            return ("ctorref", ".".join(chain))   # a constructor of the environment, handed around as a value
         if len(chain) == 1 and isinstance(chain[0], str) and not st.has(fr.local(chain[0])):
             if chain[0] in ("bool", "repr", "str", "len", "object"):
                 return ("builtin", chain[0])
@@ -258,7 +283,44 @@ class ObjectDomain(EffectDomain):
             n = getattr(n, "_parent", None)
         return None
 
+    def key_of(self, interp, e, st, fr):
+        """State key of `<object>.attr` for objects of this model, whatever alias the object is reached through."""
+        got = super().key_of(interp, e, st, fr)
+        if got is not None or not isinstance(e, ast.Attribute):
+            return got
+        ch = attr_chain(e)
+        if not ch or len(ch) < 2 or not all(isinstance(c, str) for c in ch):
+            return None
+        if len(ch) == 2 and fr.selfname and ch[0] == fr.selfname:
+            return None   # self.attr: the interpreter's own rule
+        if fr.instance is not None and ch[0] == fr.selfname:
+            cur = fr.instance
+        elif st.has(fr.local(ch[0])):
+            cur = st.get(fr.local(ch[0]))
+        elif fr.selfname and ch[0] == fr.selfname:
+            cur = ("self",)
+        else:
+            return None
+        for attr in ch[1:-1]:
+            if is_inst(cur):
+                cur = st.get(f"inst.{cur[1]}.{attr}", None)
+            elif cur == ("self",):
+                cur = st.get("self." + attr, self.attrs.get("self." + attr))
+            elif isinstance(cur, tuple) and cur[:1] == ("wobj",):
+                cur = st.get(f"obj.{cur[1]}.{attr}", self.attrs.get(f"{cur[1]}.{attr}"))
+            else:
+                return None
+        if is_inst(cur):
+            return f"inst.{cur[1]}.{ch[-1]}"
+        if cur == ("self",):
+            return "self." + ch[-1]
+        if isinstance(cur, tuple) and cur[:1] == ("wobj",) and st.has(f"obj.{cur[1]}.{ch[-1]}"):
+            return f"obj.{cur[1]}.{ch[-1]}"
+        return None
+
     def store_attr_on(self, base, attr, value, st, fr):
+        if base == ("self",):
+            return st.set("self." + attr, value)
         if is_inst(base):
             return st.set(f"inst.{base[1]}.{attr}", value)
         return None
@@ -400,6 +462,12 @@ class ObjectDomain(EffectDomain):
             return got if got is not None else [exc(("exc", "TypeError"), st)]
         if tag == "classref":
             return self.instantiate(interp, fn[1], pos, kw, st, fr)
+        if tag == "ctorref":
+            obj = ("new", fn[1].split(".")[-1], tuple(pos), tuple(kw))
+            if getattr(self, "unique_ctors", False):
+                n_ = st.get("ev.alloc", 0)
+                return [val(obj + (n_,), st.set("ev.alloc", n_ + 1))]
+            return [val(obj, st)]
         if tag == "listappend":
             cur = st.get(fn[1], None)
             if isinstance(cur, tuple) and cur[:1] == ("tuple",) and len(pos) == 1:
@@ -440,16 +508,8 @@ class ObjectDomain(EffectDomain):
                 elif isinstance(r.value, tuple) and r.value[:1] == ("wobj",):
                     a = self.attrs.get(f"{r.value[1]}.{attr}")
                     nxt.append(val(a if a is not None else ("bound", r.value[1], attr), r.state))
-                elif r.value == ("self",) and fr.instance is None:
-                    key = "self." + attr
-                    if r.state.has(key):
-                        nxt.append(val(r.state.get(key), r.state))
-                    elif key in self.attrs:
-                        nxt.append(val(self.attrs[key], r.state))
-                    elif fr.receiver is not None and self._method(fr.receiver, attr) is not None:
-                        nxt.append(val(("method", attr), r.state))
-                    else:
-                        nxt.append(val(TOP, r.state))
+                elif r.value == ("self",):
+                    nxt.extend(self._root_value_attr(interp, attr, r.state, fr))
                 else:
                     nxt.append(val(TOP, r.state))
             cur = nxt
@@ -465,16 +525,17 @@ class ObjectDomain(EffectDomain):
                 log = st.get("ev.calls", ())
                 return st.set("ev.calls", log + ((d, tuple(pos), tuple(kw), tag),)) if len(log) < self.log_cap else st.set("ev.calls.overflow", 1)
             return [val(v, logged("ok")) for v in self.results.get(d, [TOP])] + [exc(e, logged(e[1] if isinstance(e, tuple) and len(e) > 1 else "raised")) for e in self.raises.get(d, [])]
-        if fr.receiver is None:
+        root = getattr(self, "root_class", None) or (fr.receiver if fr.instance is None else None)
+        if root is None:
             return [val(TOP, st)]
-        f = self._method(fr.receiver, name)
+        f = self._method(root, name)
         if f is None:
             return [val(TOP, st)]
         static = "staticmethod" in self._decorators(f)
         argvals = self._bind(f, pos, kw, not static)
         if argvals is None:
             return [exc(("exc", "TypeError"), st)]
-        res = interp.inline(f, argvals, st, fr, receiver=fr.receiver, is_method=not static, self_value=fr.instance if not static else None)
+        res = interp.inline(f, argvals, st, fr, receiver=root, is_method=not static)
         return self._wrap_generator(f, res, fr)
 
     def call_bound_values(self, bound, pos, kw, st):
@@ -557,7 +618,7 @@ class ObjectDomain(EffectDomain):
                     continue
 
                 def ref_or_value(expr, v, r=r):
-                    key = interp._key_of(expr, fr) if isinstance(expr, (ast.Name, ast.Attribute)) else None
+                    key = interp._key_of(expr, fr, r.state) if isinstance(expr, (ast.Name, ast.Attribute)) else None
                     if key is not None and r.state.has(key) and isinstance(v, tuple) and v[:1] in (("tuple",), ("kwdict",)):
                         return ("ref", key)
                     return v
@@ -594,6 +655,25 @@ class ObjectDomain(EffectDomain):
             # methods of instances / exit stacks, reached through a local, `self` or an attribute chain without calls
             if isinstance(f_, ast.Attribute) and not any(isinstance(n_, ast.Call) for n_ in ast.walk(f_.value)):
                 recv = interp.eval(f_.value, st, fr)
+                if recv and all(r.kind == "val" and r.value == ("self",) for r in recv) and not (isinstance(f_.value, ast.Name) and f_.value.id == fr.selfname and fr.instance is None):
+                    # a method of the analysed object called through an alias (a helper object that was handed `self`)
+                    out = []
+                    for r in recv:
+                        dd = "self." + f_.attr
+                        if self._is_method_value(dd) or self.track(dd) or dd in self.results or dd in self.raises or (
+                                getattr(self, "root_class", None) is not None and self._method(self.root_class, f_.attr) is not None):
+                            for bad, pos, kw, s2 in self._call_args(interp, call, r.state, fr):
+                                if bad is not None:
+                                    out.append(bad)
+                                elif pos is None:
+                                    out.append(val(TOP, s2))
+                                else:
+                                    out.extend(self.apply(interp, ("method", f_.attr), pos, kw, s2, fr))
+                        else:
+                            for g in self._root_value_attr(interp, f_.attr, r.state, fr):
+                                for bad, pos, kw, s2 in self._call_args(interp, call, g.state, fr):
+                                    out.extend([bad] if bad is not None else ([val(TOP, s2)] if pos is None else self.apply(interp, g.value, pos, kw, s2, fr)))
+                    return out
                 if recv and all(r.kind == "val" and (is_inst(r.value) or is_exitstack(r.value)) for r in recv):
                     out = []
                     for r in recv:
@@ -707,6 +787,30 @@ class ObjectDomain(EffectDomain):
                                 out.extend(self.apply(interp, r.value, pos, kw, s2, fr))
                     return out
         return super().call(interp, call, st, fr)
+
+    def call_on_value(self, interp, receiver, call, st, fr):
+        name = call.func.attr
+        if not (is_inst(receiver) or is_exitstack(receiver) or receiver == ("self",)):
+            return None
+        out = []
+        for bad, pos, kw, s2 in self._call_args(interp, call, st, fr):
+            if bad is not None:
+                out.append(bad)
+            elif pos is None:
+                out.append(val(TOP, s2))
+            elif is_exitstack(receiver):
+                out.extend(self._exitstack_method(interp, receiver, name, pos, kw, s2, fr))
+            elif receiver == ("self",):
+                for g in self._root_value_attr(interp, name, s2, fr):
+                    out.extend([g] if g.kind == "exc" else self.apply(interp, g.value, pos, kw, g.state, fr))
+            else:
+                got = self._inst_attr(interp, receiver, name, s2, fr)
+                if got is None:
+                    out.append(val(TOP, s2))
+                    continue
+                for g in got:
+                    out.extend([g] if g.kind == "exc" else self.apply(interp, g.value, pos, kw, g.state, fr))
+        return out
 
     # -- contextlib.ExitStack -------------------------------------------------------------------
     def _exitstack_method(self, interp, xs, name, pos, kw, st, fr):
